@@ -18,7 +18,8 @@ func init() {
 			"boundary between logged file-system calls a family of power-loss images is materialised: minimal (no unsynced operation survives), maximal, " +
 			"for every inode with unsynced operations 'only this inode loses them' and 'only this inode keeps them', and 3 PRNG images with per-inode " +
 			"random surviving prefixes and 512-aligned tears; each image is opened with the real Open and every key must hold its value as of the last " +
-			"completed Sync (or last returned Put/Delete in sync-every-write mode) or a value written / deletion made after it. For sampled images the " +
+			"completed Sync (or last returned Put/Delete in sync-every-write mode) or a value written / deletion made after it. In explicit mode 30% of the Sync calls have their fsync fail (fault injection): such a Sync must return an error and " +
+			"only a later Sync that returns nil counts as completed. For sampled images the " +
 			"session continues (second epoch: recover, more writes, Sync) and is enumerated again. evaluations = images recovered after de-duplication; " +
 			"distinct_nontrivial = distinct image fingerprints in which at least one unsynced operation was dropped (images equal to the process-crash image are trivial).",
 		Assumptions: []string{
@@ -33,7 +34,7 @@ func init() {
 			return 32
 		},
 		Run:     runC06,
-		Require: []string{"images_dropping_unsynced", "pl_compact", "pl_put", "pl_sync", "second_epochs", "rollover_then_sync", "mode_syncwrites", "mode_explicit"},
+		Require: []string{"images_dropping_unsynced", "pl_compact", "pl_put", "pl_sync", "second_epochs", "rollover_then_sync", "mode_syncwrites", "mode_explicit", "syncs_with_failing_fsync", "sync_retries_after_failure"},
 	})
 }
 
@@ -140,7 +141,9 @@ func runC06(c *core.Ctx) {
 	} else {
 		c.Stat("mode_explicit", 1)
 	}
-	p := histParams{NOps: 50 + rng.Intn(130), Reopen: c.Case%3 == 0, Writers: true, LiveCheck: true, SyncPct: 10, CompactPct: 10}
+	p := histParams{NOps: 50 + rng.Intn(130), Reopen: c.Case%3 == 0, Writers: true, LiveCheck: true, SyncPct: 10, CompactPct: 10, FaultySyncPct: 30}
+	core.HBFaults = true // fsync failures are injected into some explicit Sync calls
+	defer func() { core.HBFaults = false }()
 	valIdx := 0
 	hb, err := genHistory(c, rng, nil, nil, cfg, ks, p, &valIdx)
 	if err != nil {
